@@ -54,13 +54,24 @@ def make_files(ctx, tmp, variants=None):
 
 
 def prepare(ctx, f, T, tmp):
-    """Baseline summary + traced dependencies of one file."""
+    """Baseline summary + traced dependencies of one file. Returns an error string when reading every view and
+    saving (the tracing run) raised — the static dependencies are used then."""
     names = T['names']
     f.base = U.file_summary(f.path)
-    rd, wd = U.dynamic_deps(f.path, os.path.join(tmp, 'trace_out.bsp'), names)
-    f.rd = [[T['idx'][x] for x in rd[n]] for n in names]
-    f.wd = [[T['idx'][x] for x in wd[n]] for n in names]
     f.brush_ents = [i for i, e in enumerate(f.base[3]['ents']) if i > 0 and any(k.casefold() == 'model' and v.startswith('*') for k, v in e['kv'])]
+    try:
+        rd, wd = U.dynamic_deps(f.path, os.path.join(tmp, 'trace_out.bsp'), names)
+        f.rd = [[T['idx'][x] for x in rd[n]] for n in names]
+        f.wd = [[T['idx'][x] for x in wd[n]] for n in names]
+        return None
+    except Exception as e:
+        if T.get('raw'):
+            f.rd = [list(v['rdeps']) for v in T['raw']['views']]
+            f.wd = [list(v['wdeps']) for v in T['raw']['views']]
+        else:
+            f.rd = [[] for _ in names]
+            f.wd = [[] for _ in names]
+        return f'{type(e).__name__}: {e}'
 
 
 # ----------------------------------------------------------------------------- one case on the implementation
@@ -354,7 +365,10 @@ def _run_all(ctx, drv, T):
             f = files[fi]
             try:
                 with U.quiet():
-                    prepare(ctx, f, T, tmp)
+                    err = prepare(ctx, f, T, tmp)
+                if err:
+                    ctx.witness('exception-all-views', f'[{f.label}] reading every view and saving raises {err}',
+                                {'file': f.label, 'variant': f.variant.describe() if f.variant else None, 'seq': list(T['names']), 'seed': ctx.seed})
             except Exception as e:
                 ctx.witness(f'unreadable:{type(e).__name__}', f'file {f.label} cannot be read / traced: {type(e).__name__}: {e}',
                             {'file': f.label, 'variant': f.variant.describe() if f.variant else None, 'seq': []})
